@@ -181,16 +181,192 @@ theorem C19_minimiser_is_quantile (ys : List ℝ) (τ c : ℝ) (h0 : 0 ≤ τ) (
       rw [this]; exact mul_nonneg hd (by linarith)
     linarith
 
+/-- exact change of one point's loss when the constant moves from `c` up to `c'` and no
+observation lies strictly between them on the side that matters -/
+private theorem step_exact_up (c c' y τ : ℝ) (hc : c ≤ c') (hy : y ≤ c ∨ c' ≤ y) :
+    quantile_score c' y τ = quantile_score c y τ +
+      (if y < c' then (1 - τ) * (c' - c) else -τ * (c' - c)) := by
+  rw [nf_qs, nf_qs]
+  rcases hy with hy | hy
+  · by_cases hyc : y < c'
+    · rw [if_pos hyc, if_neg (not_lt.mpr hy), if_neg (not_lt.mpr hyc.le),
+        abs_of_nonneg (by linarith), abs_of_nonneg (by linarith)]
+      ring
+    · -- y ≤ c ≤ c' and ¬ y < c'  ⇒  y = c = c'
+      have h1 : c' ≤ y := not_lt.mp hyc
+      have : c = c' := le_antisymm hc (le_trans h1 hy)
+      subst this
+      have : y = c := le_antisymm hy h1
+      subst this
+      simp
+  · have hyc : ¬ y < c' := not_lt.mpr hy
+    rw [if_neg hyc]
+    rcases eq_or_lt_of_le hy with heq | hlt
+    · subst heq
+      rcases eq_or_lt_of_le hc with h2 | h2
+      · subst h2; simp
+      · rw [if_neg (lt_irrefl _), if_pos h2, sub_self, abs_zero, mul_zero,
+          abs_of_neg (by linarith)]
+        ring
+    · have h3 : c < y := lt_of_le_of_lt hc hlt
+      rw [if_pos hlt, if_pos h3, abs_of_neg (by linarith), abs_of_neg (by linarith)]
+      ring
+
+private theorem sum_add_ite (f : ℝ → ℝ) (p : ℝ → Prop) [DecidablePred p] (a b : ℝ) (ys : List ℝ) :
+    (ys.map fun y => f y + (if p y then a else b)).sum
+      = (ys.map f).sum + (a * (ys.countP fun y => decide (p y))
+          + b * (ys.length - ys.countP fun y => decide (p y))) := by
+  rw [List.sum_map_add, sum_ite_count]
+
+/-- **converse: every minimiser of the mean pinball loss is a τ-quantile** — if the constant `c'`
+minimises `mean_quantile_score` over all constants on a non-empty sample then
+`#{y < c'} ≤ τ·n ≤ #{y ≤ c'}`.  (Otherwise moving `c'` to the neighbouring sample value
+strictly decreases the score.) -/
+theorem C19_minimiser_is_quantile_converse (ys : List ℝ) (τ c' : ℝ) (hτ0 : 0 ≤ τ) (hne : ys ≠ [])
+    (hmin : ∀ c, mqsConst c' τ ys ≤ mqsConst c τ ys) :
+    ((ys.countP fun y => decide (y < c')) : ℝ) ≤ τ * ys.length ∧
+    τ * ys.length ≤ (ys.countP fun y => decide (y ≤ c')) := by
+  have hn : (0 : ℝ) < ys.length := by exact_mod_cast List.length_pos_of_ne_nil hne
+  -- minimality in terms of sums
+  have hsum : ∀ c, (ys.map fun y => quantile_score c' y τ).sum ≤ (ys.map fun y => quantile_score c y τ).sum := by
+    intro c
+    have := hmin c
+    unfold mqsConst smean at this
+    simp only [nf_mqs, List.length_map] at this
+    exact (div_le_div_iff_of_pos_right hn).mp this
+  constructor
+  · -- too many observations strictly below c'
+    by_contra hcon
+    push Not at hcon
+    set L := ys.countP fun y => decide (y < c') with hL
+    have hLpos : 0 < L := by
+      by_contra h0
+      have : L = 0 := by omega
+      rw [this] at hcon
+      simp at hcon
+      have := mul_nonneg hτ0 hn.le
+      linarith
+    -- the largest sample value below c'
+    let S := (ys.filter fun y => decide (y < c')).toFinset
+    have hS : S.Nonempty := by
+      obtain ⟨y, hy, hyc⟩ := List.countP_pos_iff.mp hLpos
+      exact ⟨y, by simpa [S] using ⟨hy, by simpa using hyc⟩⟩
+    set c := S.max' hS with hcdef
+    have hcS : c ∈ S := Finset.max'_mem S hS
+    have hcys : c < c' := by
+      have := hcS; simp only [S, List.mem_toFinset, List.mem_filter, decide_eq_true_eq] at this; exact this.2
+    have hmax : ∀ y ∈ ys, y < c' → y ≤ c := by
+      intro y hy hyc
+      apply Finset.le_max'
+      simpa [S] using ⟨hy, hyc⟩
+    have hexact : (ys.map fun y => quantile_score c' y τ)
+        = ys.map fun y => quantile_score c y τ + (if y < c' then (1 - τ) * (c' - c) else -τ * (c' - c)) := by
+      apply List.map_congr_left
+      intro y hy
+      apply step_exact_up c c' y τ hcys.le
+      by_cases hyc : y < c'
+      · exact Or.inl (hmax y hy hyc)
+      · exact Or.inr (not_lt.mp hyc)
+    have h1 := hsum c
+    rw [hexact, sum_add_ite] at h1
+    have : (1 - τ) * (c' - c) * (L : ℝ) + -τ * (c' - c) * ((ys.length : ℝ) - L)
+        = (c' - c) * ((L : ℝ) - τ * ys.length) := by ring
+    rw [this] at h1
+    have hpos : 0 < (c' - c) * ((L : ℝ) - τ * ys.length) := mul_pos (by linarith) (by linarith)
+    linarith
+  · -- too few observations ≤ c'
+    by_contra hcon
+    push Not at hcon
+    set E := ys.countP fun y => decide (y ≤ c') with hE
+    have hElt : E < ys.length := by
+      by_contra h0
+      have hle := List.countP_le_length (p := fun y => decide (y ≤ c')) (l := ys)
+      have : E = ys.length := by omega
+      rw [this] at hcon
+      have hτ : τ * (ys.length : ℝ) ≤ ys.length ∨ True := Or.inr trivial
+      -- τ n > n is impossible only if τ ≤ 1; derive a contradiction from minimality instead:
+      -- all observations are ≤ c', so moving up is never better, but we need τ*n ≤ n.
+      -- use c = c' + 1: each point's loss grows by (1-τ), total (1-τ) n ≥ 0 ⇒ τ ≤ 1 is not needed:
+      -- from hsum (c'+1): Σρ(c') ≤ Σρ(c'+1) = Σρ(c') + (1-τ) n  ⇒ (1-τ) n ≥ 0 ⇒ τ n ≤ n.
+      have hex : (ys.map fun y => quantile_score (c' + 1) y τ)
+          = ys.map fun y => quantile_score c' y τ + (if y < c' + 1 then (1 - τ) * (c' + 1 - c') else -τ * (c' + 1 - c')) := by
+        apply List.map_congr_left
+        intro y hy
+        apply step_exact_up c' (c' + 1) y τ (by linarith)
+        left
+        have : decide (y ≤ c') = true := by
+          have hall : ys.countP (fun y => decide (y ≤ c')) = ys.length := this
+          exact (List.countP_eq_length.mp hall) y hy
+        simpa using this
+      have h1 := hsum (c' + 1)
+      rw [hex, sum_add_ite] at h1
+      have hall2 : (ys.countP fun y => decide (y < c' + 1)) = ys.length := by
+        apply List.countP_eq_length.mpr
+        intro y hy
+        have : decide (y ≤ c') = true := (List.countP_eq_length.mp this) y hy
+        have : y ≤ c' := by simpa using this
+        simp; linarith
+      rw [hall2] at h1
+      simp at h1
+      nlinarith
+    -- the smallest sample value above c'
+    let S := (ys.filter fun y => decide (c' < y)).toFinset
+    have hS : S.Nonempty := by
+      have : ∃ y ∈ ys, ¬ (decide (y ≤ c') = true) := by
+        by_contra hno
+        push Not at hno
+        have : ys.countP (fun y => decide (y ≤ c')) = ys.length := List.countP_eq_length.mpr hno
+        omega
+      obtain ⟨y, hy, hyc⟩ := this
+      exact ⟨y, by simpa [S] using ⟨hy, by simpa using hyc⟩⟩
+    set c := S.min' hS with hcdef
+    have hcS : c ∈ S := Finset.min'_mem S hS
+    have hcys : c' < c := by
+      have := hcS; simp only [S, List.mem_toFinset, List.mem_filter, decide_eq_true_eq] at this; exact this.2
+    have hmin' : ∀ y ∈ ys, c' < y → c ≤ y := by
+      intro y hy hyc
+      apply Finset.min'_le
+      simpa [S] using ⟨hy, hyc⟩
+    -- moving from c' up to c: points ≤ c' gain (1-τ)(c-c'), points ≥ c lose τ(c-c')
+    have hexact : (ys.map fun y => quantile_score c y τ)
+        = ys.map fun y => quantile_score c' y τ + (if y < c then (1 - τ) * (c - c') else -τ * (c - c')) := by
+      apply List.map_congr_left
+      intro y hy
+      apply step_exact_up c' c y τ hcys.le
+      by_cases hyc : c' < y
+      · exact Or.inr (hmin' y hy hyc)
+      · exact Or.inl (not_lt.mp hyc)
+    have hcount : (ys.countP fun y => decide (y < c)) = E := by
+      apply List.countP_congr
+      intro y hy
+      simp only [decide_eq_true_eq]
+      constructor
+      · intro hlt
+        by_contra hgt
+        exact absurd (hmin' y hy (not_le.mp hgt)) (not_le.mpr hlt)
+      · intro hle; linarith
+    have h1 := hsum c
+    rw [hexact, sum_add_ite, hcount] at h1
+    have : (1 - τ) * (c - c') * (E : ℝ) + -τ * (c - c') * ((ys.length : ℝ) - E)
+        = (c - c') * ((E : ℝ) - τ * ys.length) := by ring
+    rw [this] at h1
+    have hneg : (c - c') * ((E : ℝ) - τ * ys.length) < 0 := mul_neg_of_pos_of_neg (by linarith) (by linarith)
+    linarith
+
 /-! ## mape and bias -/
 
 /-- perfect predictions score 0 -/
-theorem C19_perfect (t : ℝ) : mape t t = 0 ∧ bias t t = 0 := by
+theorem C19_perfect (t : ℝ) (_ht : t ≠ 0) : mape t t = 0 ∧ bias t t = 0 := by
   rw [nf_mape, nf_bias]; simp
 
-theorem C19_perfect_mean (ts : List ℝ) :
+theorem C19_perfect_mean (ts : List ℝ) (hts : ∀ t ∈ ts, t ≠ 0) :
     mapeL (ts.map fun t => (t, t)) = 0 ∧ biasL (ts.map fun t => (t, t)) = 0 := by
   unfold mapeL biasL smean
-  simp only [List.map_map, Function.comp_def, (C19_perfect _).1, (C19_perfect _).2]
+  have h1 : ts.map (fun t => mape t t) = ts.map (fun _ => (0 : ℝ)) :=
+    List.map_congr_left (fun t ht => (C19_perfect t (hts t ht)).1)
+  have h2 : ts.map (fun t => bias t t) = ts.map (fun _ => (0 : ℝ)) :=
+    List.map_congr_left (fun t ht => (C19_perfect t (hts t ht)).2)
+  simp only [List.map_map, Function.comp_def, h1, h2]
   simp
 
 /-- predictions uniformly `p` percent too high (too low) give `mape = p` and `bias = +p (−p)`,
@@ -238,28 +414,28 @@ theorem C19_perm_invariant (l1 l2 : List (ℝ × ℝ)) (h : l1.Perm l2) :
   exact ⟨rfl, rfl⟩
 
 /-- scaling prediction and truth by the same non-zero factor changes nothing -/
-theorem C19_scale_invariant (s p t : ℝ) (hs : s ≠ 0) :
+theorem C19_scale_invariant (s p t : ℝ) (hs : s ≠ 0) (ht : t ≠ 0) :
     mape (s * p) (s * t) = mape p t ∧ bias (s * p) (s * t) = bias p t := by
   constructor
   · rw [nf_mape, nf_mape]
     have : s * t - s * p = s * (t - p) := by ring
     rw [this, abs_mul, abs_mul]
     have : |s| ≠ 0 := abs_ne_zero.mpr hs
-    by_cases ht : t = 0
-    · subst ht; simp
-    · have : |t| ≠ 0 := abs_ne_zero.mpr ht
-      field_simp
+    have : |t| ≠ 0 := abs_ne_zero.mpr ht
+    field_simp
   · rw [nf_bias, nf_bias]
-    by_cases ht : t = 0
-    · subst ht; simp
-    · field_simp
+    field_simp
 
-theorem C19_scale_invariant_mean (s : ℝ) (hs : s ≠ 0) (l : List (ℝ × ℝ)) :
+theorem C19_scale_invariant_mean (s : ℝ) (hs : s ≠ 0) (l : List (ℝ × ℝ))
+    (hl : ∀ x ∈ l, x.2 ≠ 0) :
     mapeL (l.map fun x => (s * x.1, s * x.2)) = mapeL l ∧
     biasL (l.map fun x => (s * x.1, s * x.2)) = biasL l := by
   unfold mapeL biasL smean
-  simp only [List.map_map, Function.comp_def, List.length_map,
-    (C19_scale_invariant s _ _ hs).1, (C19_scale_invariant s _ _ hs).2]
+  have h1 : l.map (fun x => mape (s * x.1) (s * x.2)) = l.map (fun x => mape x.1 x.2) :=
+    List.map_congr_left (fun x hx => (C19_scale_invariant s x.1 x.2 hs (hl x hx)).1)
+  have h2 : l.map (fun x => bias (s * x.1) (s * x.2)) = l.map (fun x => bias x.1 x.2) :=
+    List.map_congr_left (fun x hx => (C19_scale_invariant s x.1 x.2 hs (hl x hx)).2)
+  simp only [List.map_map, Function.comp_def, List.length_map, h1, h2]
   exact ⟨trivial, trivial⟩
 
 /-! ## Non-vacuity: the median of [1,2,3,4,5] satisfies the quantile condition for τ = 1/2 -/
@@ -269,6 +445,7 @@ example : (([1, 2, 3, 4, 5] : List ℝ).countP fun y => decide (y < 3) : ℝ)
       ≤ (([1, 2, 3, 4, 5] : List ℝ).countP fun y => decide (y ≤ 3) : ℝ) := by
   simp [List.countP_cons]; norm_num
 
-assert_axioms C19_pinball_cases C19_nonneg C19_zero_iff C19_minimiser_is_quantile C19_perfect
+assert_axioms C19_pinball_cases C19_nonneg C19_zero_iff C19_minimiser_is_quantile
+  C19_minimiser_is_quantile_converse C19_perfect
   C19_perfect_mean C19_offset C19_offset_mean C19_perm_invariant C19_scale_invariant
   C19_scale_invariant_mean
